@@ -40,6 +40,9 @@ Remainder == /\ phase = "serial"
 Next == (\E i \in 0..(P-1) : Thread(i)) \/ Join \/ Remainder
 Spec == Init /\ [][Next]_vars
 
+(* state constraint for the cheap configuration: threads finish in index order *)
+InOrder == \A i \in done : \A h \in 0..i : h \in done
+
 RestNonNegative == Rest >= 0 /\ Rest < P
 EachPointOnce == phase = "summed" => \A x \in 0..(npts-1) : Count(slots, x) = 1
 NothingElse == \A s \in DOMAIN slots : \A q \in 1..Len(slots[s]) : slots[s][q] \in 0..(npts-1)
